@@ -23,7 +23,7 @@ type docGen struct {
 	unsafe bool // contains invalid UTF-8 or lone surrogates (not given to jq)
 }
 
-var docKeys = []string{"a", "b", "k", "length", "pluck", "push", "", "key with space", "é", "\\u00e9", "q\\\"uote", "日本", "a", "dup"}
+var docKeys = []string{"\\\\u003ckey", "a", "b", "k", "length", "pluck", "push", "", "key with space", "é", "\\u00e9", "q\\\"uote", "日本", "a", "dup"}
 
 func (g *docGen) numText() string {
 	switch g.rng.IntN(14) {
@@ -87,6 +87,10 @@ func (g *docGen) strText() string {
 			g.unsafe = true
 		case 7:
 			sb.WriteString([]string{"<", ">", "&", "'", "</script>", "100%", "%d", "%s%v", "%!"}[g.rng.IntN(9)])
+		case 8:
+			// an escaped backslash followed by text that looks like an escape: the string holds the characters \ u 0 0 3 c
+			sb.WriteString([]string{"\\\\u003c", "\\\\u003e", "\\\\u0026", "\\\\u2028", "\\\\n", "\\\\\\\"", "\\\\u00e9", "\\\\\\\\", "\\\\/"}[g.rng.IntN(9)])
+			g.stats["escaped-backslash-before-escape-like-text"]++
 		default:
 			sb.WriteByte("abcxyz 0123,:[]{}"[g.rng.IntN(17)])
 		}
@@ -244,19 +248,48 @@ func c04Doc(c *Case) {
 		c04Jq(c, text, lib.RootJSON)
 	}
 	// a sample through the binary: -o - and -o FILE
-	if c.Idx%50 == 0 && !strings.ContainsRune(text, 0) {
+	if c.Idx%20 == 0 && !strings.ContainsRune(text, 0) {
 		args := []string{}
 		for _, s := range sels {
 			args = append(args, "-r", s)
 		}
 		outf := filepath.Join(c.env.Scratch, "o.json")
 		os.Remove(outf)
-		r := RunCli(c.env.Jqawk, append(args, "-o", outf, "--", pc.prog), []byte(text), c.env.Scratch, 30*time.Second)
+		how := "fresh file"
+		var r *CliResult
+		switch (c.Idx / 20) % 4 {
+		case 1: // the target exists and is longer than what will be written
+			how = "existing longer file"
+			os.WriteFile(outf, []byte(lib.RootJSON+"\n"+strings.Repeat("{\"old\": [1, 2, 3]}\n", 3+c.Rng.IntN(40))), 0o644)
+			r = RunCli(c.env.Jqawk, append(args, "-o", outf, "--", pc.prog), []byte(text), c.env.Scratch, 120*time.Second)
+		case 2: // rewrite in place: the target is the input file, re-indented wider than the output will be
+			how = "in place over a longer input file"
+			var wide bytes.Buffer
+			if json.Indent(&wide, []byte(text), "", "        ") != nil {
+				wide.Reset()
+				wide.WriteString(text)
+			}
+			wide.WriteString(strings.Repeat(" \n", 50))
+			os.WriteFile(outf, wide.Bytes(), 0o644)
+			r = RunCli(c.env.Jqawk, append(args, "-o", outf, "--", pc.prog, outf), nil, c.env.Scratch, 120*time.Second)
+		case 3: // the target exists and is shorter
+			how = "existing shorter file"
+			os.WriteFile(outf, []byte("0"), 0o644)
+			r = RunCli(c.env.Jqawk, append(args, "-o", outf, "--", pc.prog), []byte(text), c.env.Scratch, 120*time.Second)
+		default:
+			r = RunCli(c.env.Jqawk, append(args, "-o", outf, "--", pc.prog), []byte(text), c.env.Scratch, 120*time.Second)
+		}
 		b, rerr := os.ReadFile(outf)
 		os.Remove(outf)
+		if r.TimedOut {
+			c.Inconclusive("binary-watchdog")
+			return
+		}
 		c.Count("binary_runs")
+		c.Count("binary_-o:" + how)
 		if r.Exit != 0 || rerr != nil || string(b) != lib.RootJSON {
-			c.Violation(fmt.Sprintf("binary -o FILE: exit %d stderr %q, file differs from the library's JSON (%v)", r.Exit, clip(string(r.Stderr), 80), rerr), nil, rp)
+			rp["target"] = how
+			c.Violation(fmt.Sprintf("binary -o FILE (%s): exit %d stderr %q, file (%d bytes) differs from the library's JSON (%d bytes) (%v)", how, r.Exit, clip(string(r.Stderr), 80), len(b), len(lib.RootJSON), rerr), nil, rp)
 			return
 		}
 		c.Held()
@@ -391,9 +424,9 @@ func c04Rejected(c *Case) {
 			c.Held()
 		}
 		// through the binary: status != 0 and "error writing JSON" for cycles
-		r := RunCli(c.env.Jqawk, []string{"-o", "-", "--", text}, []byte("0"), c.env.Scratch, 30*time.Second)
+		r := RunCli(c.env.Jqawk, []string{"-o", "-", "--", text}, []byte("0"), c.env.Scratch, 120*time.Second)
 		if r.TimedOut {
-			c.Violation("binary did not terminate writing shape "+sh.name, nil, map[string]any{"program": text})
+			c.Inconclusive("binary-watchdog") // wall-clock is never a verdict; an unbounded walk ends at the address-space limit instead
 			continue
 		}
 		if f := cliFault(r); f != "" {
